@@ -42,7 +42,11 @@ def _shard(name, shard, nshards, tier, seed):
                 k = int(rng.integers(0, 4))
                 psi = mpsgen.rand_mps(rng, L=L, qd=qd, maxD=3, dtype=dts[0])
                 if k == 0:
-                    chi = mpsgen.rand_mps(rng, L=L, qd=qd, maxD=3, dtype=dts[1], boundary=(int(rng.integers(-1, 2)), int(psi.qD[-1][0])))
+                    # same sector as psi with a (possibly different) constant offset of the bond charges, or a different sector
+                    off = int(rng.integers(-1, 2))
+                    chi = mpsgen.rand_mps(rng, L=L, qd=qd, maxD=3, dtype=dts[1],
+                                          boundary=(int(psi.qD[0][0]) + off, int(psi.qD[-1][0]) + off) if rng.random() < 0.7
+                                          else (int(rng.integers(-1, 2)), int(psi.qD[-1][0])))
                     op = {'op': 'op.vdot', 'chi': mpsgen.enc_mp(chi), 'psi': mpsgen.enc_mp(psi)}
                     push(op, lambda chi=chi, psi=psi: {'val': exact.enc_scalar(ptn.vdot(chi, psi))}, ('vdot', L, d, tuple(chi.bond_dims), tuple(psi.bond_dims), dts[0] + dts[1]))
                 elif k == 1:
@@ -139,7 +143,9 @@ def oracle_case(rng):
     try:
         psi = rnd_like(rng, mpsgen.rand_mps(rng, L=L, qd=qd, maxD=3), cplx)
         if k == 0:
-            chi = rnd_like(rng, mpsgen.rand_mps(rng, L=L, qd=qd, maxD=3, boundary=(int(rng.integers(-1, 2)), int(psi.qD[-1][0]))), cplx2)
+            off = int(rng.integers(-1, 2))
+            bnd = (int(psi.qD[0][0]) + off, int(psi.qD[-1][0]) + off) if rng.random() < 0.7 else (int(rng.integers(-1, 2)), int(psi.qD[-1][0]))
+            chi = rnd_like(rng, mpsgen.rand_mps(rng, L=L, qd=qd, maxD=3, boundary=bnd), cplx2)
             ref = np.vdot(dense_mps(chi), dense_mps(psi))
             if abs(ptn.vdot(chi, psi) - ref) > tol * max(1, abs(ref)):
                 return 'vdot(chi, psi) != <chi|psi> (first argument conjugated)'
